@@ -513,7 +513,18 @@ func c08run(env *core.Env, idx int) core.CaseResult {
 		} else if k0, _ := fsx.Diff(msnap, start); hidden == "no-way-to-remove" && mr.OK() && k0 == "" {
 			// one situation (F25b), whatever the target and whatever the full run answers for it: nothing can be removed,
 			// nothing was, and the helper says it is done
-			res.Violate(sig("success-with-nothing-removed"), fmt.Sprintf("%s(%q) on %s, which offers no way to remove anything, returned nil and removed nothing (primitives %v); with everything exposed it returns %s and the tree differs: %s", cs.Helper, target, cs.Base, mcalls, fr, dd), wit)
+			// (F25b is about directories: for each of them only its own Remove is missing, which the helper tolerates. A file
+			// below the target is another matter: its removal failed, which is an error however tolerant the helper is
+			// about directories)
+			shape := "directories-only"
+			for p, e := range start {
+				if p != "." && (target == "." || strings.HasPrefix(p, target+"/")) && e.Kind != "d" {
+					shape = "holds-files"
+					dd += " [holds " + p + "]"
+					break
+				}
+			}
+			res.Violate(sig("success-with-nothing-removed:"+shape), fmt.Sprintf("%s(%q) on %s, which offers no way to remove anything, returned nil and removed nothing (primitives %v); with everything exposed it returns %s and the tree differs: %s", cs.Helper, target, cs.Base, mcalls, fr, dd), wit)
 		} else if mr.Err != fr.Err {
 			res.Violate(sig("result:got="+mr.Err+",want="+fr.Err), fmt.Sprintf("%s(%q) on %s with %s hidden returned %s (primitives %v); with everything exposed it returns %s", cs.Helper, target, cs.Base, hidden, mr, mcalls, fr), wit)
 		} else if mr.Data != fr.Data {
